@@ -1,4 +1,6 @@
 import OsmoVerif.Model.Msgb
+import OsmoVerif.Model.SercommMsgb
+import OsmoVerif.Driver.Sercomm
 import OsmoVerif.Driver.Util
 /-!
 `mb.run ALLOC OP …` and `mb.q OP …`, answered from `Model.Msgb`; same protocol as
@@ -81,9 +83,22 @@ def runScript (toks : List String) : Option String := do
   | .error f => some (faultStr f)
   | .ok m => some (" ".intercalate (runOps m [("-/" ++ stateStr m)] ops))
 
-/-! queue scripts: address 0 is NULL, the queue head is cell 1, buffer `id` is cell `id + 2` -/
+/-! queue scripts: address 0 is NULL, the queue head is cell 1, buffer `id` is cell `id + 2`.
 
-def walkIds (h : Heap) (fwd : Bool) : String :=
+`Heap` is a function type, so a heap-valued model function such as `enqueue h q a` is compiled with the looked-up
+address as an extra argument: every later lookup would re-run it (and the lookups inside it) — exponential in the
+length of a history.  The driver therefore keeps the cells 0 … 19 as a table, turns the table into a `Heap` for one
+model operation and tabulates the result again.  Cells outside the table (the `LLIST_POISON` addresses) are never read
+by a legal history. -/
+
+abbrev Tab := List Cell
+
+def Tab.heap (t : Tab) : Heap := fun x => match t[x]? with | some c => c | none => ⟨0, 0⟩
+
+def tabulate (h : Heap) : Tab := (List.range 20).map h
+
+def walkIds (t : Tab) (fwd : Bool) : String :=
+  let h := t.heap
   let rec go (fuel : Nat) (a : Nat) (acc : List String) : List String :=
     match fuel with
     | 0 => acc
@@ -94,38 +109,94 @@ def walkIds (h : Heap) (fwd : Bool) : String :=
   let ids := (go 16 (if fwd then (h 1).next else (h 1).prev) []).reverse
   if ids.isEmpty then "-" else ",".intercalate ids
 
-def queueStr (h : Heap) : String := "f:" ++ walkIds h true ++ ";b:" ++ walkIds h false
+def queueStr (t : Tab) : String := "f:" ++ walkIds t true ++ ";b:" ++ walkIds t false
 
-def runQueue (h : Heap) (live : List Nat) (acc : List String) : List String → Option (List String)
+def runQueue (t : Tab) (live : List Nat) (acc : List String) : List String → Option (List String)
   | [] => some acc.reverse
   | "deq" :: r =>
-    let (h', res) := dequeue h 1
+    let (h', res) := dequeue t.heap 1
+    let t' := tabulate h'
     let q := match res with
       | none => "q:none;"
       | some a => if a ≥ 2 ∧ a ≤ 17 ∧ live.contains (a - 2) then s!"q:{a - 2};" else "q:?;"
-    runQueue h' live ((q ++ queueStr h') :: acc) r
+    runQueue t' live ((q ++ queueStr t') :: acc) r
   | "new" :: i :: r => do
     let i ← parseNat? i
     if i ≥ 16 ∨ live.contains i then none
     -- `_talloc_zero`: the cell of a new buffer is { NULL, NULL }
-    let h' : Heap := fun x => if x = i + 2 then ⟨0, 0⟩ else h x
-    runQueue h' (i :: live) (queueStr h' :: acc) r
+    let t' := t.set (i + 2) ⟨0, 0⟩
+    runQueue t' (i :: live) (queueStr t' :: acc) r
   | "enq" :: i :: r => do
     let i ← parseNat? i
     if i ≥ 16 ∨ !live.contains i then none
-    let h' := enqueue h 1 (i + 2)
-    runQueue h' live (queueStr h' :: acc) r
+    let t' := tabulate (enqueue t.heap 1 (i + 2))
+    runQueue t' live (queueStr t' :: acc) r
   | "free" :: i :: r => do
     let i ← parseNat? i
     if i ≥ 16 ∨ !live.contains i then none
-    runQueue h (live.erase i) (queueStr h :: acc) r
+    runQueue t (live.erase i) (queueStr t :: acc) r
   | _ => none
+
+/-! `mb.sc OP …` / `mb.sct OP …`: the histories of `sc.run` / `sc.runt` (Driver/Sercomm.lean, same operations, same
+answers) on the machine WITH real message buffers (`Model/SercommMsgb.lean`); a msgb fault or a queue index beyond the
+array is `CRASH`. -/
+
+open OsmoVerif.Sercomm OsmoVerif.SercommMsgb OsmoVerif.Gen.Sercomm in
+structure CDState where
+  tab : HandlerTab
+  w : CWorld
+  regs : List (Nat × Int)
+
+open OsmoVerif.Sercomm OsmoVerif.SercommMsgb OsmoVerif.Gen.Sercomm in
+/-- the harness allocates `sercomm_alloc_msgb(n ? n : 1)` for a payload of `n` octets -/
+def allocHarness (n : Nat) : Nat := max n 1
+
+open OsmoVerif.Sercomm OsmoVerif.SercommMsgb OsmoVerif.Gen.Sercomm in
+def crunOps (cap : Nat) : List String → CDState → Option (Except CFault CDState)
+  | [], s => some (.ok s)
+  | "reg" :: d :: rest, s => do
+    let d ← parseNat? d
+    if d > 255 then none
+    let (tab, rc) := registerCb s.tab d .user
+    crunOps cap rest { s with tab := tab, regs := (s.w.trace.length, rc) :: s.regs }
+  | "send" :: d :: h :: rest, s => do
+    let d ← parseNat? d
+    if d > 255 then none
+    let p ← unhex? h
+    match CWorld.step (s.tab.cfg cap) cap allocHarness s.w (.send d p) with
+    | .ok w => crunOps cap rest { s with w := w }
+    | .error f => (fun _ => Except.error f) <$> crunOps cap rest s
+  | "pull" :: n :: rest, s => do
+    let n ← parseNat? n
+    match CWorld.stepN (s.tab.cfg cap) cap allocHarness .pull n s.w with
+    | .ok w => crunOps cap rest { s with w := w }
+    | .error f => (fun _ => Except.error f) <$> crunOps cap rest s
+  | "loop" :: n :: rest, s => do
+    let n ← parseNat? n
+    match CWorld.stepN (s.tab.cfg cap) cap allocHarness .loop n s.w with
+    | .ok w => crunOps cap rest { s with w := w }
+    | .error f => (fun _ => Except.error f) <$> crunOps cap rest s
+  | "rx" :: h :: rest, s => do
+    let p ← unhex? h
+    match CWorld.step (s.tab.cfg cap) cap allocHarness s.w (.rx p) with
+    | .ok w => crunOps cap rest { s with w := w }
+    | .error f => (fun _ => Except.error f) <$> crunOps cap rest s
+  | _, _ => none
+
+open OsmoVerif.Sercomm OsmoVerif.SercommMsgb OsmoVerif.Gen.Sercomm in
+def crunLine (cap : Nat) (toks : List String) : Option String := do
+  let r ← crunOps cap toks ⟨HandlerTab.init nRxHandlers, CWorld.init nTxQueues, []⟩
+  match r with
+  | .error _ => pure "CRASH"
+  | .ok s => pure (OsmoVerif.Driver.Sercomm.render s.w.trace.reverse s.regs.reverse)
 
 /-- `mb.*` verbs -/
 def handle : List String → Option String
+  | "mb.sc" :: toks => crunLine (OsmoVerif.Gen.Sercomm.rxMsgSizeHost + OsmoVerif.Gen.Sercomm.allocSlack) toks
+  | "mb.sct" :: toks => crunLine (OsmoVerif.Gen.Sercomm.rxMsgSizeTarget + OsmoVerif.Gen.Sercomm.allocSlack) toks
   | "mb.run" :: toks => runScript toks
   | "mb.q" :: toks => do
-    let out ← runQueue (initHead (fun _ => ⟨0, 0⟩) 1) [] [] toks
+    let out ← runQueue (tabulate (initHead (fun _ => ⟨0, 0⟩) 1)) [] [] toks
     some (if out.isEmpty then "ok" else " ".intercalate out)
   | _ => none
 
